@@ -539,25 +539,63 @@ def r14_6_7(ctx, family: Optional[str] = None) -> None:
         def _kv_display(d) -> bool:
             return isinstance(d, ast.Dict) and bool(d.keys) and d.keys[-1] is not None and norm(d.keys[-1]) == kp_ and norm(d.values[-1]) == vp_
         stores = []
+
+        def _recv(e) -> str:
+            # `header = self.header; if header: header.update(...)`: a local bound once to the attribute is that object
+            if isinstance(e, ast.Name) and e.id not in ah.params:
+                asg = [d for d in eng.flow._defs(ah).get(e.id, []) if d[0] != "mut-call"]
+                if len(asg) == 1 and asg[0][0] == "assign" and not asg[0][2] and isinstance(asg[0][1], ast.Attribute):
+                    return norm(asg[0][1])
+            return norm(e)
         for x in acfg.nodes:
             if x.kind != "stmt":
                 continue
             st = x.ast
             if isinstance(st, ast.Expr) and isinstance(st.value, ast.Call) and isinstance(st.value.func, ast.Attribute) and st.value.func.attr == "update" \
-                    and len(st.value.args) == 1 and _kv_display(st.value.args[0]) and norm(st.value.func.value).endswith((".header", ".protected")):
+                    and len(st.value.args) == 1 and _kv_display(st.value.args[0]) and _recv(st.value.func.value).endswith((".header", ".protected")):
                 stores.append(x)
             elif isinstance(st, ast.Assign) and len(st.targets) == 1:
                 tg = st.targets[0]
-                if isinstance(tg, ast.Subscript) and norm(tg.slice) == kp_ and norm(st.value) == vp_ and norm(tg.value).endswith((".header", ".protected")):
+                if isinstance(tg, ast.Subscript) and norm(tg.slice) == kp_ and norm(st.value) == vp_ and _recv(tg.value).endswith((".header", ".protected")):
                     stores.append(x)
                 elif isinstance(tg, ast.Attribute) and tg.attr == "header" and _kv_display(st.value):
                     stores.append(x)
         ctx.check(bool(stores) and acfg.must_pass(acfg.entry, acfg.exit, stores), "R14.6", ah, ah.node, ah.short, "Recipient.add_header does not store {k: v} in every branch",
                   "{k: v} in protected / header on every path", construct="Recipient.add_header")
-    gs = P.func("jwe:_guess_sender_key")
-    cfg = cfg_of(gs)
     ks = P.cls(KS)
     gb, pr = ks.methods["get_by_kid"], ks.methods["pick_random_key"]
+    try:
+        gs = P.func("jwe:_guess_sender_key")
+    except AnalysisError:
+        # the helper was specialised away (one copy per caller, written out there): the same discipline is demanded of every JWE function that
+        # looks a sender key up - by skid through get_by_kid; a random pick only on the producing side, only without skid, its kid recorded as skid
+        hosts = [f for f in P.all_functions() if f.short.startswith("jwe:") and f.name != "<module>"
+                 and any(gb in s_.callees and isinstance(s_.node, ast.Call) and s_.node.args and _resolve_local(eng, f, s_.node.args[0]).endswith(".headers().get('skid')")
+                         for s_ in eng.cg.calls_in(f))]
+        if len(hosts) < 4:
+            raise AnalysisError("R14.7: jwe:_guess_sender_key vanished and fewer than 4 JWE functions resolve a sender key by skid")
+        for h in hosts:
+            hcfg = cfg_of(h)
+            gets = [s_ for s_ in eng.cg.calls_in(h) if gb in s_.callees and isinstance(s_.node, ast.Call) and s_.node.args
+                    and _resolve_local(eng, h, s_.node.args[0]).endswith(".headers().get('skid')")]
+            picks = [s_ for s_ in eng.cg.calls_in(h) if pr in s_.callees and isinstance(s_.node, ast.Call) and isinstance(s_.node.func, ast.Attribute)
+                     and any(norm(s_.node.func.value) == norm(g_.node.func.value) for g_ in gets if isinstance(g_.node.func, ast.Attribute))]
+            producing = h.name.startswith("encrypt")
+            okh = len(gets) == 1 and len(picks) == (1 if producing else 0)
+            if okh:
+                skv = norm(gets[0].node.args[0])
+                t = [x for x in hcfg.nodes if x.kind == "test" and norm(x.ast) == skv]
+                gn = hcfg.node_of(gets[0].node)
+                okh = bool(t) and gn not in hcfg.reachable(hcfg.entry, edge_filter=lambda a, b, l: not (a in t and l == "true"))
+                if okh and producing:
+                    pn = hcfg.node_of(picks[0].node)
+                    okh = pn not in hcfg.reachable(hcfg.entry, edge_filter=lambda a, b, l: not (a in t and l == "false"))
+                    hdr = [s_ for s_ in eng.cg.calls_in(h) if isinstance(s_.node, ast.Call) and s_.attr == "add_header" and s_.node.args and const_value(s_.node.args[0]) == "skid"]
+                    okh = okh and bool(hdr) and all(norm(s_.node.args[1]).endswith(".kid") for s_ in hdr)
+            ctx.check(okh, "R14.7", h, h.node, h.short, "the sender key is not resolved by skid via get_by_kid (or its kid is not recorded as skid after a random pick; or a random pick "
+                      "happens on the consuming side)", "skid -> get_by_kid(skid); producing side only: else pick_random_key + add_header('skid', skey.kid)", construct="_guess_sender_key")
+        return
+    cfg = cfg_of(gs)
     gets = [s for s in eng.cg.calls_in(gs) if gb in s.callees and isinstance(s.node, ast.Call)]
     picks = [s for s in eng.cg.calls_in(gs) if pr in s.callees and isinstance(s.node, ast.Call)]
     skv = find_local(eng, gs, lambda t_: t_.endswith(".headers().get('skid')"))
